@@ -409,7 +409,7 @@ fn owns_reset(op: &Op) -> bool {
 }
 
 impl<'a> Observer for Obs15<'a> {
-    fn needs_snap(&self, _actor: Actor, op: &Op) -> bool {
+    fn needs_snap(&self, _actor: Actor, op: &Op, _s: &Screen) -> bool {
         self.twin.is_some() || op.lower() == Op::Reset
     }
     fn step(&mut self, ctx: &StepCtx) -> Result<(), Violation> {
@@ -762,7 +762,7 @@ impl<'a> Observer for Obs17<'a> {
         self.fb = snap.grid.clone();
         Ok(())
     }
-    fn needs_snap(&self, _actor: Actor, op: &Op) -> bool {
+    fn needs_snap(&self, _actor: Actor, op: &Op, _s: &Screen) -> bool {
         matches!(op, Op::Paint)
     }
     fn before(&mut self, _idx: u64, _actor: Actor, _op: &Op, s: &Screen) {
